@@ -128,6 +128,18 @@ func corpus() []*history {
 			op{Kind: "nfincr", Idx: n(-1), Mode: "NF--"}, oDump(), oSet(n(7), "5"), op{Kind: "rmw", Idx: n(7), Val: vh.HxS("15"), Mode: "%s *= 3"}, oDump()),
 		hist(false, oSetLine("a b"), op{Kind: "nfincr", Idx: n(-3), Mode: "NF -= 3"}),
 		hist(false, oRead("a,b c"), oFS(","), op{Kind: "nfincr", Idx: n(1), Mode: "++NF"}, oDump()),
+		// seeded C06-n3: a rejected NF operand reached by getline var must leave NF = number of fields
+		&history{Files: true, Ops: []op{oSetLine("a b c"), {Kind: "operand", Route: "v", Inner: &op{Kind: "setnfstr", Idx: numInt(1000001), Val: vh.HxS("1000001")}},
+			oGetNF(), oGet(numInt(-1)), oDump(), {Kind: "operand", Route: "g", Inner: &op{Kind: "setnfstr", Idx: numInt(-1), Val: vh.HxS("-1")}}, oDump(),
+			{Kind: "operand", Route: "g", Rec: vh.HxS("p q r s"), Inner: &op{Kind: "setnfstr", Idx: numInt(2), Val: vh.HxS("2")}}, oDump(),
+			{Kind: "operand", Route: "v", Inner: &op{Kind: "fs", Val: vh.HxS("a("), NoRe: true}}, oSetLine("xa(y z"), oDump(),
+			{Kind: "operand", Route: "m", Rec: vh.HxS("k,l m"), Inner: &op{Kind: "fs", Val: vh.HxS(",")}}, oDump(),
+			{Kind: "operand", Route: "m", Rec: vh.HxS("u v"), Inner: &op{Kind: "setnfstr", Idx: numInt(2000000), Val: vh.HxS("2000000")}}}},
+		// seeded C06-n1: CSV input mode, getline var / getline var < file leave the current record's fields alone
+		&history{InMode: "csv", Ops: []op{oRead("a,b,c"), oGet(numInt(1)), {Kind: "getlinevar", Val: vh.HxS("d,e,f")}, oDump(), {Kind: "getlinefile", Val: vh.HxS("g,h")}, oDump(),
+			oSetLine("x,\"y,z\""), oDump(), oSet(numInt(3), "w"), oDump()}},
+		&history{InMode: "tsv", Files: true, Ops: []op{{Kind: "read", Val: vh.HxS("a\tb c\td"), Route: "m"}, oGetNF(), {Kind: "getlinevar", Val: vh.HxS("1\t2\t3")}, oDump(),
+			{Kind: "getlinevar", Val: vh.HxS("9")}, oDump(), {Kind: "read", Val: vh.HxS("q\tr"), Route: "m"}, oDump()}},
 		// non-finite indexes
 		hist(false, oSetLine("a b"), oGet(specialNums[0]), oGet(specialNums[1]), oGet(specialNums[2]), oSet(specialNums[0], "x"), oSet(specialNums[2], "x"), oDump(), oSet(specialNums[1], "x")),
 		hist(false, oSetLine("a b"), oSetNF(specialNums[0])),
@@ -257,6 +269,18 @@ func genRe(r *rand.Rand, depth int) *reNode {
 }
 
 func genLine(r *rand.Rand, th theme) string {
+	if th.fsKind == "csv-input" {
+		k := 1 + r.Intn(5)
+		var fs []string
+		for i := 0; i < k; i++ {
+			fs = append(fs, csvWords[r.Intn(len(csvWords))])
+		}
+		s := strings.Join(fs, th.seps[0])
+		if s == "" {
+			s = "a"
+		}
+		return s
+	}
 	if r.Intn(12) == 0 {
 		return ""
 	}
@@ -359,7 +383,13 @@ func genNFValue(r *rand.Rand, nf int) (op, string) {
 func genHistory(c *vh.Ctx, maxOps int) *history {
 	r := c.Rng
 	th := pickTheme(r)
-	h := &history{RSEmpty: r.Intn(8) == 0}
+	h := &history{RSEmpty: r.Intn(8) == 0, Files: r.Intn(5) == 0}
+	if r.Intn(8) == 0 {
+		// CSV / TSV input mode: records are CSV texts, the fields their RFC 4180 reading
+		h.InMode = []string{"csv", "tsv"}[r.Intn(2)]
+		h.RSEmpty = false
+		th = csvTheme(h.InMode)
+	}
 	n := 2 + r.Intn(maxOps-1)
 	nf := 0 // rough estimate, only steers the index classes
 	// most histories start by choosing the separator and loading a record
@@ -374,6 +404,22 @@ func genHistory(c *vh.Ctx, maxOps int) *history {
 			}
 			return h // the program stops here
 		}
+		if k := r.Intn(100); k < 5 || (k < 12 && (h.Files || h.InMode != "")) {
+			// records that pass by without becoming the current record, and `var=value` operands
+			s := genLine(r, th)
+			if !okForStdin([]byte(s), h.RSEmpty) {
+				s = "p q r"
+			}
+			switch {
+			case h.Files && k%3 != 0:
+				h.Ops = append(h.Ops, genOperand(r, h, th, nf, s))
+			case k%2 == 0:
+				h.Ops = append(h.Ops, op{Kind: "getlinevar", Val: vh.HxS(s)})
+			default:
+				h.Ops = append(h.Ops, op{Kind: "getlinefile", Val: vh.HxS(s)})
+			}
+			continue
+		}
 		switch k := r.Intn(100); {
 		case k < 10:
 			s := genLine(r, th)
@@ -384,7 +430,11 @@ func genHistory(c *vh.Ctx, maxOps int) *history {
 		case k < 18:
 			s := genLine(r, th)
 			if okForStdin([]byte(s), h.RSEmpty) {
-				h.Ops = append(h.Ops, oRead(s))
+				o := oRead(s)
+				if h.Files && r.Intn(2) == 0 {
+					o.Route = "m"
+				}
+				h.Ops = append(h.Ops, o)
 			} else {
 				h.Ops = append(h.Ops, oSetLine(s))
 			}
@@ -471,6 +521,8 @@ func genHistory(c *vh.Ctx, maxOps int) *history {
 // opFails: does the operation end the program with a runtime error (as far as the generator can tell)?
 func opFails(o op) bool {
 	switch o.Kind {
+	case "operand":
+		return o.Route == "m" && opFails(*o.Inner)
 	case "set", "rmw":
 		f := o.Idx.F()
 		return f == f && f >= maxFieldIndex+1
@@ -484,6 +536,70 @@ func opFails(o op) bool {
 		return !ok
 	}
 	return false
+}
+
+// csvTheme: record texts for CSV/TSV input mode are built by genLine from already encoded fields
+func csvTheme(mode string) theme {
+	sep := ","
+	if mode == "tsv" {
+		sep = "\t"
+	}
+	return theme{"csv-input", []op{oFS(" "), oFS(",")}, []byte("ab7"), []string{sep, sep, sep + sep}}
+}
+
+var csvWords = []string{"a", "bb", "7", "07", "1.0", "", "x y", " lead", "\"q\"\"r\"", "\"x,y\"", "\"u\tv\"", "\"l\nm\"", "\"\"", "é", "+5"}
+
+// genOperand: a `var=value` command-line operand (NF, FS, OFS, OUTPUTMODE; accepted or rejected values) reached by
+// `getline var`, plain `getline` or the main loop
+func genOperand(r *rand.Rand, h *history, th theme, nf int, rec string) op {
+	var in op
+	switch k := r.Intn(10); {
+	case k < 5:
+		switch r.Intn(6) {
+		case 0:
+			v := []int{1000001, 2000000, 1000001, 99999999}[r.Intn(4)]
+			in = oSetNFStr(strconv.Itoa(v), numInt(v))
+			in.Class = "nf-too-large"
+		case 1:
+			v := []int{-1, -7, -1000001}[r.Intn(3)]
+			in = oSetNFStr(strconv.Itoa(v), numInt(v))
+			in.Class = "nf-negative"
+		default:
+			for {
+				o, cl := genNFValue(r, nf)
+				if o.Kind == "setnfstr" && okForOperand(o.val()) {
+					in, in.Class = o, cl
+					break
+				}
+				if o.Kind == "setnfnum" && o.Idx.F() == float64(int(o.Idx.F())) && o.Idx.F() >= 0 && o.Idx.F() < 400 {
+					in = oSetNFStr(strconv.Itoa(int(o.Idx.F())), numInt(int(o.Idx.F())))
+					in.Class = cl
+					break
+				}
+			}
+		}
+	case k < 7:
+		in = th.fsOps[r.Intn(len(th.fsOps))]
+		if r.Intn(6) == 0 {
+			in = oFS("a(")
+		}
+		if !okForOperand(in.val()) {
+			in = oFS(",")
+		}
+	case k < 9:
+		in = oOFS([]string{" ", "-", ",", "", "::", ";", "x"}[r.Intn(7)])
+	default:
+		in = oMode([]string{"csv", "tsv", "", "csv separator=;", "bogus"}[r.Intn(5)])
+	}
+	route := []string{"v", "g", "m"}[r.Intn(3)]
+	o := op{Kind: "operand", Route: route, Inner: &in, Class: in.Kind}
+	if opFails(in) {
+		o.Class += ":rejected"
+	}
+	if route != "v" {
+		o.Rec = vh.HxS(rec)
+	}
+	return o
 }
 
 func genRMW(r *rand.Rand, i numT, k int, cl string) op {
@@ -501,7 +617,7 @@ func genRMW(r *rand.Rand, i numT, k int, cl string) op {
 // ---- bookkeeping --------------------------------------------------------------------------------
 
 func isMutation(k string) bool {
-	return k == "setline" || k == "read" || k == "set" || k == "setnfnum" || k == "setnfstr" || k == "rmw" || k == "nfincr"
+	return k == "setline" || k == "read" || k == "set" || k == "setnfnum" || k == "setnfstr" || k == "rmw" || k == "nfincr" || k == "operand"
 }
 func isObservation(k string) bool { return k == "get" || k == "getnf" || k == "dump" }
 
@@ -543,14 +659,23 @@ func distribution(c *vh.Ctx, h *history) {
 	if h.RSEmpty {
 		c.Hit("rs:empty")
 	}
+	if h.Files {
+		c.Hit("input:ARGV-operands")
+	}
+	if h.InMode != "" {
+		c.Hit("inputmode:" + h.InMode)
+	}
 	lazyPending := false // a record was set and no field/NF access happened yet
 	for _, o := range h.Ops {
 		key := "op:" + o.Kind
+		if o.Route != "" {
+			key += ":route-" + o.Route
+		}
 		if o.Class != "" {
 			key += ":" + o.Class
 		}
 		c.Hit(key)
-		if v := effectiveVariant(o, h.RSEmpty); v != 0 {
+		if v := effectiveVariant(o, h); v != 0 {
 			c.Hit(fmt.Sprintf("spelling:%s:%d", o.Kind, v))
 		}
 		switch o.Kind {
@@ -569,6 +694,11 @@ func distribution(c *vh.Ctx, h *history) {
 			}
 		case "set", "getnf", "setnfnum", "setnfstr", "dump", "rmw", "nfincr":
 			lazyPending = false
+		case "operand":
+			if o.Inner.Kind == "fs" && lazyPending {
+				c.Hit("lazy:FS-changed-before-first-field-access")
+			}
+			lazyPending = o.Route != "v" || (lazyPending && o.Inner.Kind != "setnfstr")
 		}
 	}
 }
